@@ -9,7 +9,8 @@ use crate::{ensure, fail, selftest};
 use ruzstd::verif_hooks as hk;
 use serde_json::{json, Value};
 
-const STAGES: [&str; 14] = [
+const STAGES: [&str; 15] = [
+    "extra_bits_triple",
     "rle_mode_symbols",
     "mode_transitions",
     "ll_codes",
@@ -191,6 +192,32 @@ fn seq_count_parser_item(i: u64, ctx: &mut CaseCtx) -> CaseResult {
 }
 
 /// item = one 3-byte block header value
+/// The extra bits of one sequence are read as a triple (offset bits up to 31, match-length bits up to
+/// 16, literal-length bits up to 16 - more than the 56 bits one refill holds when the offset code is
+/// 25 or more, i.e. for distances from 32 MiB on, which no generated frame of the quick tier
+/// reaches). Documented contract: "same as calling get_bits three times". Item = ((n1 * 17 + n2) *
+/// 17 + n3) * 8 + variant (bit position the triple starts at, stream contents).
+fn triple_item(v: u64, ctx: &mut CaseCtx) -> CaseResult {
+    use ruzstd::verif_hooks::BitReaderReversed;
+    let variant = v % 8;
+    let n3 = (v / 8 % 17) as u8;
+    let n2 = (v / 8 / 17 % 17) as u8;
+    let n1 = (v / 8 / 17 / 17) as u8;
+    let mut r = Rng(v * 0x9E37 + 11);
+    let stream: Vec<u8> = (0..24).map(|_| r.next() as u8).collect();
+    let skip = (variant * 5 % 23) as u8;
+    let mut a = BitReaderReversed::new(&stream);
+    let mut b = BitReaderReversed::new(&stream);
+    let (sa, sb) = (a.get_bits(skip), b.get_bits(skip));
+    let ta = a.get_bits_triple(n1, n2, n3);
+    let tb = (b.get_bits(n1), b.get_bits(n2), b.get_bits(n3));
+    let (fa, fb) = (a.get_bits(9), b.get_bits(9));
+    ensure!(sa == sb && ta == tb && fa == fb, "extra_bits_triple", "get_bits_triple({n1}, {n2}, {n3}) after {skip} bits returns {ta:?} then {fa:#x}; three get_bits calls return {tb:?} then {fb:#x}; stream {stream:02x?}");
+    ctx.nontrivial = n1 as u32 + n2 as u32 + n3 as u32 > 56;
+    ctx.feat_if(ctx.nontrivial, "triple:more_than_56_bits_(offset_code>=25_with_long_lengths)");
+    Ok(())
+}
+
 /// RLE_Mode for a sequence table: the one byte that follows is a CODE and must be one the format
 /// defines for that table (literal lengths 0..=35, offsets 0..=31, match lengths 0..=52). Item =
 /// table * 256 + byte. A one-sequence block is decoded; "refused as a symbol" is told from every
@@ -567,6 +594,7 @@ fn run_stage(eng: &Engine, stage: &str) -> bool {
         }
         "seq_count_writer" => eng.run_enumerated(stage, "every sequence count 1..=98047 through the compressor's writer", 98_047, 2048, seq_count_writer_item),
         "seq_count_parser" => eng.run_enumerated(stage, "every 1/2/3-byte sequence-count prefix (2^24 patterns, redundant ones skipped)", 1 << 24, 1 << 14, seq_count_parser_item),
+        "extra_bits_triple" => eng.run_enumerated(stage, "extra-bit triples: offset bits 0..=31 x match-length bits 0..=16 x literal-length bits 0..=16 x 8 positions/streams", 32 * 17 * 17 * 8, 256, triple_item),
         "rle_mode_symbols" => eng.run_enumerated(stage, "RLE_Mode symbol byte: 3 tables x all 256 values", 3 * 256, 16, rle_symbol_item),
         "mode_transitions" => eng.run_enumerated(stage, "3 tables x every ordered triple of the 4 modes over three consecutive blocks x 4 value variants", 3 * 64 * 4, 16, mode_transition_item),
         "block_headers" => eng.run_enumerated(stage, "all 2^24 block headers", 1 << 24, 1 << 14, block_header_item),
@@ -657,6 +685,7 @@ pub fn replay(eng: &Engine, stage: &str, case: &Value) -> CaseResult {
         "of_codes_wide" => of_wide_item(i, &mut ctx, thorough, seed),
         "seq_count_writer" => seq_count_writer_item(i, &mut ctx),
         "seq_count_parser" => seq_count_parser_item(i, &mut ctx),
+        "extra_bits_triple" => triple_item(i, &mut ctx),
         "rle_mode_symbols" => rle_symbol_item(i, &mut ctx),
         "mode_transitions" => mode_transition_item(i, &mut ctx),
         "block_headers" => block_header_item(i, &mut ctx),
